@@ -29,7 +29,9 @@ IMPORTS
 )
 
 var verifPool = []string{"1.0.0", "1.0", "1", "01.0.0", "v1.0.0", "1.0.0+build", "1.0.0-1", "2.0.0", "1.10.0", "1.2.0", "1.9.0", "0.9", "1.0.0-alpha", "1.0.0-Beta", "1.0.0-beta", "1.0.0-ALPHA", "1.0.0-rc1", "1.0.0-RC1", "1.0.0.rc1", "1.0a", "1.0.0_p1", "1.0.0-r1", "1:1.0", "v1.2.3", "1.2.3", "10.0", "1.0.0.0", "3",
-	"1.0.0-alpha.1", "1.0.0-alpha.1.0", "1.0.0-rc.2", "1.0.0-rc.2.5", "1.0.0-alpha.beta", "1.0.0-a.b.c", "1.0.0-0", "1.0.0~rc1", "1.0.0_rc1", "1.0.0.post1", "1.0.0.dev1", "1.0.0a1", "1.0.0-SNAPSHOT", "1.0.0-sp", "1.0.0^git1", "1.0.0+b1"}
+	"1.0.0-alpha.1", "1.0.0-alpha.1.0", "1.0.0-rc.2", "1.0.0-rc.2.5", "1.0.0-alpha.beta", "1.0.0-a.b.c", "1.0.0-0", "1.0.0~rc1", "1.0.0_rc1", "1.0.0.post1", "1.0.0.dev1", "1.0.0a1", "1.0.0-SNAPSHOT", "1.0.0-sp", "1.0.0^git1", "1.0.0+b1",
+	// Go pseudo-versions of different forms around an ordinary pre-release tag (their SemVer spelling decides, not the time stamp)
+	"v1.0.0-0.20230101000000-abcdefabcdef", "v1.0.0-beta", "v1.0.0-rc.0.20200101000000-abcdefabcdef", "v1.0.1-0.20210101000000-abcdefabcdef", "v0.0.0-20190101000000-abcdefabcdef"}
 
 func verifUnquote(line string) ([]string, bool) {
 	var out []string
